@@ -9,7 +9,7 @@ RULE = ("random scenes with frequent set_transform (integer and quarter translat
         "and get_transform() are compared with the model after every op. Evaluated on the implementation itself: (a) "
         "fill(path) under T is bit-identical to fill(Path::transform(T)) under the identity (solid sources); (b) a singular T "
         "makes fill/fill_rect/stroke/mask/draw_image draw nothing; (c) push_clip_rect, mask() placement and copy/blend_surface "
-        "give the same pixels whatever T is; (d) pop_layer and clear leave get_transform() unchanged; non-trivial = drawing op "
+        "give the same pixels whatever T is; (d) pop_layer and clear leave get_transform() unchanged and give the same pixels whatever T is; non-trivial = drawing op "
         "under a non-identity transform that changed pixels")
 
 IDT = scene.xf_tokens(scene.IDENT)
@@ -25,8 +25,25 @@ def metamorphic(ctx):
         xf = scene.rand_xf(rng, general=0.6)
         xt = scene.xf_tokens(xf)
         hdr = "%d %d I %s" % (W, H, init)
-        k = i % 6
-        if k == 5:
+        k = i % 7
+        if k == 6:
+            # pop_layer composites the layer, and clear() fills, in device space: the transform in force when they are
+            # called (any T, singular ones included) has no influence on the pixels
+            d = scene.draw_op(rng, W, H, dict(draw_kinds=["fill", "fillrect", "mask", "stroke"]))
+            if rng.random() < 0.6:
+                pre = ("cliprect %d %d %d %d ; " % scene.rand_rect(rng, W, H)) if rng.random() < 0.5 else ""
+                lay = "layer %d %d" % (gen.alpha_bits(rng), 3 if rng.random() < 0.6 else rng.randrange(gen.N_MODES))
+                t2 = scene.xf_tokens(scene.rand_xf(rng, general=0.6)) if rng.random() < 0.5 else xt
+                A.append("scene %d %s ; %s%s ; %s ; xf %s ; poplayer" % (len(A), hdr, pre, lay, d, t2))
+                B.append("scene %d %s ; %s%s ; %s ; xf %s ; poplayer" % (len(B), hdr, pre, lay, d, IDT))
+                kinds.append("pop_layer composites in device space whatever the current transform is")
+            else:
+                r = "%d %d %d %d" % scene.rand_rect(rng, W, H)
+                c_ = gen.hexpx(gen.premul_pixel(rng))
+                A.append("scene %d %s ; xf %s ; cliprect %s ; clear %s" % (len(A), hdr, xt, r, c_))
+                B.append("scene %d %s ; cliprect %s ; clear %s" % (len(B), hdr, r, c_))
+                kinds.append("clear() fills the clip in device space whatever the current transform is")
+        elif k == 5:
             # fill_rect is the fill of the rectangle path in the same user space: under every transform that is not the
             # identity the two calls must paint identical pixels (shears with a unit diagonal, integer and fractional
             # translations, scales, rotations)
